@@ -1,4 +1,5 @@
 import AmrK.Point
+import AmrK.PointCase1
 /-! # C19 — point queries at interior cell centres return the stored cell value -/
 namespace C19
 open Point
@@ -12,6 +13,18 @@ theorem centre_index (g dx : Rat) (i : Int) (hdx : dx ≠ 0) : pointIdxR g dx (g
     exactly the stored cell -/
 theorem local_index (g dx : Rat) (i lo : Int) (hdx : dx ≠ 0) :
     pointIdxR g dx (g + ((i : Rat) + 1/2) * dx) - lo = ((i - lo : Int) : Rat) := pointLocal_centre g dx i lo hdx
+
+/-- **single-box case, per axis**: the centre of any cell of box `B` passes the inner match of `B` … -/
+theorem inner_match (g dx : Rat) (lo hi i : Int) (hdx : 0 < dx) (h1 : lo ≤ i) (h2 : i ≤ hi) :
+    pLo g dx lo + dx / 2 ≤ centre g dx i ∧ centre g dx i ≤ pHi g dx hi - dx / 2 :=
+  Point.inner_match g dx lo hi i hdx h1 h2
+
+/-- … and for a cell at least one cell away from `B`'s faces, no box of the level that is disjoint from
+    `B` along the axis passes the outer match (so all three match lists hold exactly `B`) -/
+theorem outer_miss_below (g dx : Rat) (lo i hi' : Int) (hdx : 0 < dx) (hdis : hi' < lo) (h1 : lo + 1 ≤ i) :
+    ¬ (centre g dx i ≤ pHi g dx hi' + dx / 2) := Point.outer_miss_below g dx lo i hi' hdx hdis h1
+theorem outer_miss_above (g dx : Rat) (hi i lo' : Int) (hdx : 0 < dx) (hdis : hi < lo') (h1 : i + 1 ≤ hi) :
+    ¬ (pLo g dx lo' - dx / 2 ≤ centre g dx i) := Point.outer_miss_above g dx hi i lo' hdx hdis h1
 
 /-- the pinned conversion is wrong for every non-zero origin (checked record of the repaired defect) -/
 theorem pinned_wrong (g dx : Rat) (i : Int) (hdx : dx ≠ 0) (hg : g ≠ 0) : pointIdxP dx (g + ((i : Rat) + 1/2) * dx) ≠ i :=
